@@ -86,3 +86,9 @@ pub mod verif_hooks_mqttconn {
     //! Verification hooks (add-only): the mqtt-out target on a scripted broker.
     pub use super::mqtt::target::verif_hooks_mqttconn::*;
 }
+
+#[cfg(feature = "verif-hooks")]
+pub mod verif_hooks_reconfunits {
+    //! Verification hooks (add-only): a null-out target from given links.
+    pub use super::null::verif_hooks_reconfunits::*;
+}
